@@ -141,9 +141,18 @@ def run_case(ctx, case):
                         extra = [rnd_rel(mode, N, D, rr)]
                         goal = z3.Or(rr > I128_MAX, rr <= I128_MIN)
                     else:
-                        goal = False
+                        # the kernel must not panic at all; look first for a counterexample whose exact result is
+                        # representable (visible through every public operator), then for any
+                        rr = T.fresh_int("rr")
+                        extra = [rnd_rel(mode, N, D, rr)]
+                        goal = z3.Or(rr > I128_MAX, rr <= I128_MIN)
+                        r0 = res.vc(ctx, name + "|representable", o.state.pruned_constraints(goal, extra), goal, {"x": x.t, "y": y.t},
+                                    {"kind": "cdr", "p": p, "q": q, "n": n, "mode": mode})
+                        if r0.status != "unsat":
+                            continue
+                        goal, extra = False, []
                     r = res.vc(ctx, name, o.state.pruned_constraints(goal, extra), goal, {"x": x.t, "y": y.t},
-                               {"kind": "cdr", "p": p, "q": q, "n": n, "mode": mode})
+                               {"kind": "cdr", "p": p, "q": q, "n": n, "mode": mode, "panic_path": o.kind != "return"})
                     if i == 0 and sg == "+-" and (p + q) % 7 == 0:
                         res.sample({"vc": name, "status": r.status, "time_s": round(r.time, 4)})
         return res.done()
@@ -297,6 +306,13 @@ def replay(ctx, native, v):
         if obs[0] == "PANIC":
             obs = ("PANIC",)
         exp = DL.expected_div("div_rounded", mode, x, p, y, q, n, "Decimal", "Decimal")
+        if obs in exp and info.get("panic_path") and n == 18 and y != 10 ** q and x != 0:
+            # the kernel panics where it has to return None: visible through checked_div (must never panic)
+            line = "%d bin cdiv vv %s %s" % (mode, fmt_dec(x, p), fmt_dec(y, q))
+            obs = parse_native(nat.ask(line))
+            if obs[0] == "PANIC":
+                obs = ("PANIC",)
+            exp = DL.expected_div("checked_div", mode, x, p, y, q, 18, "Decimal", "Decimal")
         return {"reproduced": obs not in exp, "line": line, "observed": obs, "expected": exp, "profile": "dev"}
     if kind == "mulr":
         p, q, n, mode = info["p"], info["q"], info["n"], info["mode"]
